@@ -208,8 +208,9 @@ def write_evidence(pid, tier, seed, mod, merged, wall, n_shards, known, unknown,
     ev = dict(property_id=pid, tier=tier, seed=int(seed), level='model_checking', coverage=cov,
               assumptions=list(getattr(mod, 'ASSUMPTIONS', [])), wall_s=round(wall, 3),
               violations=len(unknown))
-    os.makedirs(os.path.join(VERIF, 'evidence'), exist_ok=True)
-    path = os.path.join(VERIF, 'evidence', '%s.json' % pid)
+    evdir = os.environ.get('PMUTT_VERIF_EVIDENCE_DIR') or os.path.join(VERIF, 'evidence')   # self-test only
+    os.makedirs(evdir, exist_ok=True)
+    path = os.path.join(evdir, '%s.json' % pid)
     with open(path, 'w') as f:
         json.dump(core.jsonable(ev), f, indent=1, sort_keys=True)
     ev['coverage']['schema_check'] = validate_evidence(path)
@@ -268,7 +269,7 @@ def run(pid, tier, seed, workers):
     stale = [e for e in known_entries if id(e) not in known_hit]
 
     # replay (twice, fresh processes) every unknown violation that will be printed
-    rdir = os.path.join(VERIF, 'replays', pid)
+    rdir = os.path.join(os.environ.get('PMUTT_VERIF_REPLAY_DIR') or os.path.join(VERIF, 'replays'), pid)
     lines = []
     rc = 0
     to_print = unknown[:MAX_LINES]
